@@ -6,6 +6,7 @@ WORDS = ['password', 'dragon', 'monkey', 'love', 'pass', 'word', 'super', 'man',
 CYR = ['пароль', 'любовь', 'привет', 'кот', 'солнце', 'москва']
 GRK = ['κωδικος', 'αγαπη', 'ηλιος']
 CASELESS = ['中文', '密码', '中文密码', 'パスワード', 'ไทย', 'שלום', 'مرحبا', '한국']        # letters without case
+TURK = ['İstanbul', 'İzmir', 'ışık', 'çay', 'İ', 'DİL']          # cp1254 / iso8859-9 hold U+0130, whose lower() (i + combining dot) they cannot represent
 LAT1 = ['señor', 'über', 'café', 'garçon', 'niño', 'été', 'ärger']
 MULTI = ['superman', 'basketball', 'starwars', 'passwordpassword', 'bluehouse', 'hellokitty', 'loveyou', 'testtest', 'summerlove']
 DIGITS = ['1', '12', '123', '1234', '12345', '123456', '007', '00', '42', '69', '2580', '99', '8', '111111', '31337']
@@ -40,6 +41,8 @@ def word(rng, classes):
         pool += LAT1 * 3
     if 'caseless' in classes:
         pool += CASELESS * 2
+    if 'tr' in classes:
+        pool += TURK * 3
     return cap(rng, rng.choice(pool))
 
 def password(rng, classes=('ascii',), allow_ew=False, max_parts=4):
@@ -78,7 +81,7 @@ def password(rng, classes=('ascii',), allow_ew=False, max_parts=4):
     return pw if pw.strip() != '' or pw else 'x'
 
 ENCODINGS = {'utf-8-sig': ('ascii', 'cyr', 'grk', 'lat1', 'nonbmp', 'caseless'), 'utf-8': ('ascii', 'cyr', 'grk', 'lat1', 'nonbmp', 'caseless'), 'latin-1': ('ascii', 'lat1'), 'cp1251': ('ascii', 'cyr'),
-             'cp1252': ('ascii', 'lat1'), 'ascii': ('ascii',), 'iso-8859-7': ('ascii', 'grk')}
+             'cp1252': ('ascii', 'lat1'), 'cp1254': ('ascii', 'lat1', 'tr'), 'ascii': ('ascii',), 'iso-8859-7': ('ascii', 'grk')}
 
 def encodable(s, enc):
     try:
